@@ -88,6 +88,8 @@ pub fn ecm(n: &BigInt, conf: ECMConfig) -> (BigInt, u64) {
     debug_assert!(!prime::is_prime(n));
 
     let mut rng = rand::thread_rng();
+    #[cfg(feature = "verif-hooks")]
+    let mut rng = crate::verif_hooks::shadow(rng);
 
     let mut count = 0u64;
 
